@@ -29,7 +29,7 @@ try:
     for sub in ("simfile", "testdata"):
         shutil.copytree(os.path.join(a.repo, sub), os.path.join(d, sub), ignore=shutil.ignore_patterns("__pycache__"))
     if a.patch:
-        r = subprocess.run(["patch", "-p1", "-s", "-i", os.path.abspath(a.patch)], cwd=d)
+        r = subprocess.run(["patch", "-p1", "-s", "-N", "-f", "-i", os.path.abspath(a.patch)], cwd=d)
         if r.returncode:
             print("PATCH FAILED"); sys.exit(3)
     if a.sed:
